@@ -262,6 +262,13 @@ def whole_book(ctx, bi):
             sh['cells'][a] = wbspec.enc(ArrayFormula('P1', '=1+2'))
         if rng.random() < 0.3:
             sh['cells']['P2'] = "=L1&\"-\"&M1"
+    # a worksheet that never had a cell written (Excel's spare sheet), first / in the middle / last
+    if rng.random() < 0.3:
+        pos = rng.randrange(0, len(spec['sheets']) + 1)
+        spec['sheets'].insert(pos, wbspec.sheet(rng.choice(['Spare', 'Sheet3', 'empty one']), {}))
+        titles = [s['title'] for s in spec['sheets']]
+        planted = {((si + 1 if si >= pos else si), a): v for (si, a), v in planted.items()}
+        r.count('books_with_empty_worksheet')
     name = f'w{bi}'
     path = wbspec.write(spec, os.path.join(ctx.workdir, name + '.xlsx'))
     case = {'book': name, 'spec': spec}
